@@ -6,6 +6,7 @@ from common import sx, ok, err
 from units import U
 
 ID = 'C20'
+ZERO_LABELS = True      # a share of the cases is asked with candidates numbered from 0 (harness/common.py LABEL_MODE)
 LEVEL = 'proof'
 TIE = {'vote.py validators / VoteMagnitudeChecker': 'correspondence', 'candidate.py nominators': 'correspondence',
        'convert.InvalidVoteEliminator': 'correspondence'}
